@@ -43,6 +43,14 @@ var c13Regress = []string{
 	"func (",
 	"type T struct { a, b",
 	"a <- b...",
+	"var f = x => { goto L }",
+	"var f = x => {\nL: goto L }",
+	"var f = x => { for { break L } }",
+	"x := (a, (b, c)) => 1",
+	"x := (a, (b, c) if => 1",
+	"x := huh`> (\n`",
+	"echo tpl`> ,\nx`",
+	"x := [\n1, 2\n3, 4\n]",
 }
 
 func (p *c13) Setup(env *fw.Env) error {
@@ -71,7 +79,19 @@ func (p *c13) Case(i int) fw.Case {
 	r := p.rnd(i)
 	var in []byte
 	kind := ""
-	switch r.Intn(10) {
+	switch r.Intn(14) {
+	case 10, 11, 12:
+		kind = "tokmut"
+		var base []byte
+		if r.Bool() {
+			base = []byte((&gen.XSyn{R: r}).File(r.Chance(1, 4)))
+		} else {
+			base = gen.Window(r, fw.Pick(r, p.pool).Src, 600)
+		}
+		in = tokenMutate(r, base, 3)
+	case 13:
+		kind = "gen"
+		in = []byte((&gen.XSyn{R: r}).File(r.Chance(1, 4)))
 	case 0, 1, 2:
 		kind = "soup"
 		in = []byte(gen.LexStream(r, r.Range(1, 30), false, true))
